@@ -218,6 +218,7 @@ def main(tier: str, replay: str | None) -> None:
     for m in sorted(set(X.LOOP_EXC))[:10]:
         chk.note(f"exception reached the event loop during a run (not a C10 clause): {m}")
     report(chk, items, workers, stats)
+    dispatch_stage(chk, tier, workers, stats)
     print(f"TLC DevFilterTrace: {stats['judge']['rows']} rows judged, {stats['judge']['failing_rows']} failing; "
           f"drift items {stats['drift']['rejected_items']}")
     samples, seen_lv = [], {}
@@ -246,9 +247,98 @@ def main(tier: str, replay: str | None) -> None:
     )
 
 
+# ----------------------------------------------------------------------------------------------
+# the dispatcher (spec/Dispatch.tla): what a message that got past the protocol's filter gives rise to
+
+_DOBS = ("created", "srcFirst", "nobody", "tag", "cnt", "processed")
+
+
+def _dispatch_payload(items: list[dict]) -> list[dict]:
+    return [{"rows": [{"q": r["q"], "obs": {k: r["obs"][k] for k in _DOBS}} for r in it["rows"]]} for it in items]
+
+
+def dispatch_stage(chk: Check, tier: str, workers: int, stats: dict) -> None:
+    from harness import ext_dispatch as D
+    t0 = time.time()
+    out: dict = {"mc": {}}
+    for cfg, expect in (("MC_Dispatch.cfg" if tier == "quick" else "MC_Dispatch_full.cfg", None),
+                        ("MC_Dispatch_x.cfg", "X_RefusedCreatesNothing")):
+        r = tlc.run_tlc("MC_Dispatch", cfg, workers=workers, timeout=900)
+        if (expect is None and not r.ok) or (expect is not None and r.violated != [expect]):
+            raise tlc.MachineryFailure(f"{cfg}: violated={r.violated} errors={r.errors[:2]}\n{r.out[-1500:]}")
+        out["mc"][cfg] = {"inputs_enumerated": r.distinct, "violated": r.violated, "wall_s": round(r.wall_s, 1)}
+    items = D.execute(D.configs(tier == "thorough"))
+    rows = sum(len(it["rows"]) for it in items)
+    if rows < 600:
+        raise tlc.MachineryFailure(f"dispatch stage: only {rows} rows were executed")
+    payload = _dispatch_payload(items)
+    # judge self-test: a corrupted outcome must be rejected in both modes
+    bad = json.loads(json.dumps(payload[0]))
+    for r in bad["rows"]:
+        if not r["q"]["srcEx"] and not r["q"]["srcOk"] and not r["q"]["pairBad"] and r["q"]["rp"] < 2:
+            r["obs"]["created"], r["obs"]["nobody"] = ["src"], False
+    bad2 = json.loads(json.dumps(payload[0]))
+    bad2["rows"][0]["obs"]["nobody"], bad2["rows"][0]["obs"]["srcFirst"] = True, False
+    rc = tlc.validate_batch("DispatchTrace", payload + [bad], cfg="DispatchTrace.cfg", workers=workers, timeout=600)
+    rd = tlc.validate_batch("DispatchTrace", payload + [bad2], cfg="DispatchTrace_drift.cfg", workers=workers, timeout=600)
+    if not any(i == len(payload) for i, _ in rc["rejects"]) or not any(i == len(payload) for i, _ in rd["rejects"]):
+        raise tlc.MachineryFailure("dispatch stage: DispatchTrace accepted a corrupted outcome table")
+    nkeys = 0
+    # every failing row of the rejected items (the fold names the first only): their rows again, one per item
+    singles = [(items[idx], r) for idx, _ in rc["rejects"] if idx < len(payload) for r in items[idx]["rows"]]
+    one = tlc.validate_batch("DispatchTrace", _dispatch_payload([{"rows": [r]} for _, r in singles]),
+                             cfg="DispatchTrace.cfg", workers=workers, timeout=600) if singles else {"rejects": []}
+    for k, fail in one["rejects"]:
+        it, r = singles[k]
+        if True:
+            clause = fail[1]
+            c = it["cfg"]
+            key = f"{'a' if r['frame'].find('04:999999') >= 0 else 'c'}:dispatch:{clause}|{r['name']}|enf={int(c['enf'])}|eav={int(c['eav'])}|unwanted={int(c['unwanted'])}"
+            nkeys += 1
+            if nkeys > MAX_KEYS:
+                chk.viol_count += 1
+                continue
+            chk.violation(key, f"at the dispatcher ({clause}): {r['frame']!r} handed to Gateway._msg_handler under {c}: "
+                               f"created={r['obs']['created']} _handle_msg scheduled for {r['obs']['sched']}",
+                          {"lvl": "dispatch", "cfg": c, "name": r["name"], "frame": r["frame"]})
+    seen = set()
+    for idx, fail in rd["rejects"]:
+        if idx >= len(payload):
+            continue
+        r = items[idx]["rows"][fail[0] - 1]
+        if (fail[1], r["name"]) in seen:
+            continue
+        seen.add((fail[1], r["name"]))
+        chk.model_drift(f"dispatcher: {fail[1]} for {r['name']} ({r['frame']!r}) under {items[idx]['cfg']}: observed "
+                        f"created={r['obs']['created']} scheduled={r['obs']['sched']} processed={r['obs']['processed']} "
+                        f"log={r['obs']['log']} (Dispatch!Route disagrees)")
+    groups: dict[str, int] = {}
+    for it in items:
+        for r in it["rows"]:
+            o = r["obs"]
+            k = ("nobody" if o["nobody"] else f"src+{o['tag']}") + ("" if o["processed"] else ":error-logged") + \
+                (":created=" + "+".join(o["created"]) if o["created"] else "")
+            groups[k] = groups.get(k, 0) + 1
+    out.update(configurations=len(items), messages=len(D.catalogue()), rows=rows, outcome_classes=groups,
+               drift_items=sum(1 for i, _ in rd["rejects"] if i < len(payload)),
+               clause_rejects=sum(1 for i, _ in rc["rejects"] if i < len(payload)),
+               loop_exceptions=sum(it["loop_exc"] for it in items), wall_s=round(time.time() - t0, 1))
+    stats["dispatch"] = out
+    print(f"dispatcher: {rows} messages x configurations on real gateways against Dispatch!Route: "
+          f"{out['drift_items']} drifting, {out['clause_rejects']} clause rejects ({out['wall_s']}s)")
+
+
 def do_replay(path: str, workers: int) -> None:
     obj = json.load(open(path))
     rp = obj.get("replay", obj)
+    if rp.get("lvl") == "dispatch":
+        from harness import ext_dispatch as D
+        items = D.execute([rp["cfg"]])
+        rows = [r for r in items[0]["rows"] if r["name"] == rp["name"]]
+        res = tlc.validate_batch("DispatchTrace", _dispatch_payload([{"rows": rows}]), cfg="DispatchTrace.cfg", workers=1, timeout=300)
+        print(f"replay {path}: {rows[0]['frame']!r} under {rp['cfg']}: observed {rows[0]['obs']}")
+        print("  TLC verdict:", res["rejects"] or "all clauses hold (not reproduced)")
+        raise SystemExit(1 if res["rejects"] else 0)
     run = {"lvl": rp["lvl"].split("+")[0], "cfg": rp["cfg"], "rows": [dict(rp["row"], drop=False)], "ids": rp["ids"],
            "opts": rp.get("opts", {})}
     items, skipped = X.execute_runs([run])
